@@ -5,6 +5,7 @@ with ite terms, summarises loops by evaluating their body at a symbolic iteratio
 havocked loop-carried places, inlines crate-local callees and closures, and models external
 callees through the semantic table (semtab.py).  No path enumeration, no execution.
 """
+import re
 from collections import namedtuple
 from . import terms as T
 from .facts import callee_key, strip_generics
@@ -696,7 +697,23 @@ class VF:
 
     def ev_Array(self, n):
         vals = [self.to_term(self.ev(f)) for f in n['fields']]
+        # eta: [x[0], x[1], .., x[k-1]] with x: [T; k] is x itself (a fixed-size array rebuilt element by element)
+        k = len(vals)
+        if k and all(T.is_app(v, 'index') and v[2][0] is vals[0][2][0] and v[2][1] is T.num(i) for i, v in enumerate(vals)):
+            m = re.match(r'\[.*;\s*(\d+)\]$', str(n.get('ty', '')).strip())
+            if m and int(m.group(1)) == k and self.array_len_of(n['fields'][0]) == k:
+                return vals[0][2][0]
         return T.app('array', *vals)
+
+    def array_len_of(self, field_node):
+        """static length k of the array indexed by the expression `x[i]` (THIR type `[T; k]` of x), or None"""
+        e = field_node
+        while isinstance(e, dict) and e.get('k') in ('Scope', 'Use', 'Borrow', 'Deref', 'Coerce') and isinstance(e.get('e'), dict):
+            e = e['e']
+        if isinstance(e, dict) and e.get('k') == 'Index' and isinstance(e.get('e'), dict):
+            m = re.match(r'&?\s*\[.*;\s*(\d+)\]$', str(e['e'].get('ty', '')).strip())
+            return int(m.group(1)) if m else None
+        return None
 
     def ev_Repeat(self, n):
         return T.app('repeat', self.to_term(self.ev(n['value'])), T.sym(n['count']))
